@@ -79,6 +79,20 @@ CLAIMED = {
     note=TB + "hashlib/codecs are trusted; 'the hash changes when identity changes' holds up to hash collisions and is checked "
          "on generated populations, not proved; T1 translator harness/translate/c01.py.",
     technique="Coq proof over Gallina model with constants regenerated from source (ast) + correspondence on captured hash inputs", ref='5 C01'),
+ 'C03': dict(
+    text="Theorems: history independence of the validator with schema cache for every history of ontology changes and "
+         "validations (under C12's counter premise; refuted without it), the interleave matcher of <properties> accepts exactly "
+         "by counting (order irrelevant, only declared names, occurrence bounds), exact membership for enum/boolean. Value "
+         "spaces: on every run the RelaxNG generated by the running code for a catalogue of data types is translated "
+         "(every pattern parsed) into terms of a Gallina model of the libxml2 RelaxNG/XSD subset, which is evaluated with "
+         "vm_compute and compared with the real verdicts; an independent statement of each value space fixes the expected "
+         "verdict of a directed boundary catalogue; verdicts of EventValidator on EDXMLEvent/EventElement/ParsedEvent, "
+         "EDXMLEvent.is_valid, EDXMLWriter.add_event and EDXMLPullParser must agree; structural single-fault mutations and "
+         "validate/mutate histories with plain and parsed events.",
+    note=TB + "no theorem relates the generated patterns to the value spaces for all strings (that equivalence is checked on the "
+         "directed catalogue only); float/double/decimal/dateTime/base64Binary lexical spaces are outside the Gallina model "
+         "(oracle only); Unicode classes are tabulated by the harness; one open known finding (decimal integer digits).",
+    technique="Coq proofs (cache history, interleave = counting) + schema translation validation against libxml2 + value-space oracle", ref='5 C03'),
  'C04': dict(
     text="Theorems over the merge model (for every ordering of the data type's values, every event type and group): per-strategy "
          "laws (match unchanged, add union, min/max extreme, replace highest version, set first non-empty, any one instance), "
